@@ -105,7 +105,10 @@ Section SemProofs.
           | None, _ => Some (of_matches (jget path r))
           | Some h, ClSome (CallExpr _ ps _) =>
               let? args := s_paramsopt ps r in
-              s_helper h (subject_value (jget path r)) args
+              match jget path r with
+              | [] => if works_on_subject h then Some (DVal (sv_bool false)) else s_helper h (sv_bool false) args
+              | l => s_helper h (subject_value l) args
+              end
           | Some _, ClNone => Some (DVal (subject_value (jget path r)))
           end
       | None, None, None, None, Some src => Some (DVal (VRe src))
@@ -344,20 +347,28 @@ Section SemProofs.
           -- cbn [E_callopt E_callexpr] in IHcall. destruct IHcall as [IHps _].
              apply obind_some in H. destruct H as [args [Hargs H]].
              rewrite (IHps r args Hargs). cbn [bind].
-             pose proof (sem_helper_spec h (subject_value (jget jp r)) args r d H) as Hh.
-             assert (Hv : value_of_result (jget jp r) = subject_value (jget jp r)).
-             { unfold subject_value, of_matches, value_of_result. destruct (jget jp r) as [|x [|y l]]; reflexivity. }
-             assert (Hgen :
-               match lookup h with
-               | Some hf =>
-                   let* hr := hf (VJ r :: value_of_result (jget jp r) :: args) r in
-                   let '(o, v', st2) := hr in Ok (EvVal v' o, st2)
-               | None => Ok (EvCollapse ORef, r)
-               end = Ok (ev_of d, r)).
-             { rewrite Hv. destruct (lookup h) as [hf|].
-               - destruct Hh as [v [Hg Hd]]. subst d. unfold helper_gives in Hg. rewrite Hg. reflexivity.
-               - subst d. reflexivity. }
-             destruct (jget jp r) as [|x l]; exact Hgen.
+             assert (Hws : works_on_subject h = subject_helper h) by reflexivity.
+             destruct (jget jp r) as [|x l] eqn:Hj; cbn [no_match andb].
+             ++ (* no match *)
+                rewrite <- Hws. cbn [value_of_result].
+                destruct (works_on_subject h) eqn:Hw.
+                ** inversion H; subst d.
+                   destruct (lookup h) as [hf|] eqn:Hl; [reflexivity|].
+                   exfalso. unfold works_on_subject, name_in in Hw. cbn [existsb] in Hw.
+                   repeat (apply orb_prop in Hw; destruct Hw as [Hw|Hw];
+                           [apply bytes_eqb_eq in Hw; subst h; discriminate Hl|]).
+                   discriminate.
+                ** pose proof (sem_helper_spec h (sv_bool false) args r d H) as Hh.
+                   destruct (lookup h) as [hf|].
+                   --- destruct Hh as [v [Hg Hd]]. subst d. unfold helper_gives in Hg. unfold vfalse. unfold sv_bool in Hg. rewrite Hg. reflexivity.
+                   --- subst d. reflexivity.
+             ++ (* at least one match *)
+                assert (Hv : value_of_result (x :: l) = subject_value (x :: l)).
+                { unfold subject_value, of_matches, value_of_result. destruct l; reflexivity. }
+                pose proof (sem_helper_spec h (subject_value (x :: l)) args r d H) as Hh. rewrite Hv.
+                destruct (lookup h) as [hf|].
+                ** destruct Hh as [v [Hg Hd]]. subst d. unfold helper_gives in Hg. rewrite Hg. reflexivity.
+                ** subst d. reflexivity.
         * inversion H; subst. unfold of_matches, value_of_result.
           destruct (jget jp r) as [|x [|y l]]; reflexivity.
       + destruct regexp; [inversion H; reflexivity|].
